@@ -83,6 +83,10 @@ pub fn rule_pool(lang: LangId) -> Vec<RuleTxt> {
             r("q2-q2-v", "(q2 $x (q2 $y (v $x)))", "(q2 $y (v $y))"),
             r("g3-v-first", "(p (g3 $x $y $z) (v $x))", "(p (g3 $z $y $x) (v $z))"),
             r("bb-swap", "(bb $x ?a $y ?b)", "(bb $y ?b $x ?a)"),
+            // a binder that only the right side has, over a pattern variable (capture avoidance rests on the fresh names the
+            // matcher gives to the slots of ?b that the pattern does not mention)
+            r("let-abstract", "(p ?a ?b)", "(let $z (p (v $z) ?b) ?a)"),
+            r("lam-wrap", "(w ?a)", "(w (p (lam $z ?a) c0))"),
             r("bb-same", "(bb $x ?a $x ?a)", "(lam $x ?a)"),
         ],
         LangId::Lambda => vec![
@@ -203,7 +207,52 @@ pub fn build_rule_renamed<L: Language + 'static, N: Analysis<L> + 'static>(rt: &
     }
 }
 
-fn slot_names_in(s: &str) -> Vec<String> {
+/// maps the given rule slot names injectively to names of parameter slots of classes that exist in `eg` now (varied by `k`);
+/// names for which no class slot is left get `r<name>`
+pub fn class_slot_renaming<L: Language, N: Analysis<L>>(names: &[String], eg: &EGraph<L, N>, k: usize) -> Vec<(String, String)> {
+    let mut avail: Vec<String> = Vec::new();
+    for i in eg.ids() {
+        for s in eg.slots(i) {
+            let n = s.to_string()[1..].to_string();
+            if !avail.contains(&n) {
+                avail.push(n);
+            }
+        }
+    }
+    avail.sort();
+    let mut map: Vec<(String, String)> = Vec::new();
+    for (i, n) in names.iter().enumerate() {
+        let target = if avail.is_empty() { format!("r{}", n) } else { avail.remove((k * 5 + i * 3) % avail.len()) };
+        map.push((n.clone(), target));
+    }
+    map
+}
+
+/// rewrites every `$name` of a pattern text through the map
+pub fn rename_slots_in(s: &str, map: &[(String, String)]) -> String {
+    let mut out = String::new();
+    let cs: Vec<char> = s.chars().collect();
+    let mut i = 0;
+    while i < cs.len() {
+        if cs[i] == '$' {
+            let mut j = i + 1;
+            while j < cs.len() && !cs[j].is_whitespace() && !"()[]".contains(cs[j]) {
+                j += 1;
+            }
+            let n: String = cs[i + 1..j].iter().collect();
+            let t = map.iter().find(|(a, _)| *a == n).map(|(_, b)| b.clone()).unwrap_or(n);
+            out.push('$');
+            out.push_str(&t);
+            i = j;
+        } else {
+            out.push(cs[i]);
+            i += 1;
+        }
+    }
+    out
+}
+
+pub fn slot_names_in(s: &str) -> Vec<String> {
     let mut out = Vec::new();
     let cs: Vec<char> = s.chars().collect();
     let mut i = 0;
@@ -241,43 +290,8 @@ pub fn build_rule_classnamed<L: Language + 'static, N: Analysis<L> + 'static>(rt
             names.push(sl.to_string());
         }
     }
-    let mut avail: Vec<String> = Vec::new();
-    for i in eg.ids() {
-        for s in eg.slots(i) {
-            let n = s.to_string()[1..].to_string();
-            if !avail.contains(&n) {
-                avail.push(n);
-            }
-        }
-    }
-    avail.sort();
-    let mut map: Vec<(String, String)> = Vec::new();
-    for (i, n) in names.iter().enumerate() {
-        let target = if avail.is_empty() { format!("r{}", n) } else { avail.remove((k * 5 + i * 3) % avail.len()) };
-        map.push((n.clone(), target));
-    }
-    let ren = |s: &str| -> String {
-        let mut out = String::new();
-        let cs: Vec<char> = s.chars().collect();
-        let mut i = 0;
-        while i < cs.len() {
-            if cs[i] == '$' {
-                let mut j = i + 1;
-                while j < cs.len() && !cs[j].is_whitespace() && !"()[]".contains(cs[j]) {
-                    j += 1;
-                }
-                let n: String = cs[i + 1..j].iter().collect();
-                let t = map.iter().find(|(a, _)| *a == n).map(|(_, b)| b.clone()).unwrap_or(n);
-                out.push('$');
-                out.push_str(&t);
-                i = j;
-            } else {
-                out.push(cs[i]);
-                i += 1;
-            }
-        }
-        out
-    };
+    let map = class_slot_renaming(&names, eg, k);
+    let ren = |s: &str| rename_slots_in(s, &map);
     let (lhs, rhs) = (ren(rt.lhs), ren(rt.rhs));
     match rt.not_free {
         None => Rewrite::new(rt.name, &lhs, &rhs),
